@@ -12,10 +12,7 @@ import (
 
 	"verif/internal/core"
 
-	_ "verif/checks/c01"
-	_ "verif/checks/c03"
-	_ "verif/checks/c06"
-	_ "verif/checks/c09"
+	_ "verif/checks/c14"
 )
 
 func main() {
